@@ -90,6 +90,7 @@ func PrecedenceEnums(p int) []*Def {
 	n := func(s string) string { return fmt.Sprintf("%s%d", s, p) }
 	return []*Def{
 		{Kind: Enum, Label: "flags-precedence", Name: n("Fp"), Flags: true, Members: []Member{
-			{Name: "A", Expr: "4 & 6 | 1", U: 5}, {Name: "B", Expr: "1 | 2 << 2", U: 9}, {Name: "C", Expr: "16 >> 1 >> 1", U: 4}, {Name: "D", Expr: "8 | 4 & 12 | 1", U: 13}}},
+			{Name: "A", Expr: "4 & 6 | 1", U: 5}, {Name: "B", Expr: "1 | 2 << 2", U: 9}, {Name: "C", Expr: "16 >> 1 >> 1", U: 4}, {Name: "D", Expr: "8 | 4 & 12 | 1", U: 13},
+			{Name: "E", Expr: "6 & 3 << 1", U: 6}, {Name: "F", Expr: "(1 | 2) << 3 | 1 & 3", U: 25}, {Name: "G", Expr: "1 << 2 << 3", U: 32}, {Name: "H", Expr: "255 & (7 | 8 << 1) >> 1", U: 11}}},
 	}
 }
